@@ -285,14 +285,21 @@ func rewriteSelects(name string, data []byte) ([]byte, int, error) {
 	var edits []edit
 	count := 0
 	var bad error
+	skip := map[*ast.SelectStmt]bool{}
 	ast.Inspect(f, func(n ast.Node) bool {
 		if ls, ok := n.(*ast.LabeledStmt); ok {
-			if _, ok := ls.Stmt.(*ast.SelectStmt); ok {
-				bad = fmt.Errorf("%s: labelled select statement not supported", fset.Position(ls.Pos()))
+			if ss, ok := ls.Stmt.(*ast.SelectStmt); ok {
+				// a labelled select cannot be wrapped in a block (break L must still
+				// refer to it): it is left as it is
+				skip[ss] = true
+				fmt.Fprintf(os.Stderr, "mkoverlay: %s: labelled select statement left unrewritten\n", fset.Position(ls.Pos()))
 			}
 		}
 		sel, ok := n.(*ast.SelectStmt)
 		if !ok {
+			return true
+		}
+		if skip[sel] {
 			return true
 		}
 		count++
